@@ -68,6 +68,7 @@ LexHex(src) ==
 LexLongDecade(src) ==
   IF Len(src) >= 5 /\ At(src, 0) = "1" /\ At(src, 1) \in Digits /\ At(src, 2) \in Digits
      /\ At(src, 3) = "0" /\ At(src, 4) = "s"
+     /\ (~Has(src, 5) \/ At(src, 5) \notin UniAlnum)      \* the plural s must end the word
   THEN Tok("Decade", 5, 0) ELSE None
 
 \* str::parse::<f64> restricted to the alphabet: d+ ('.' d*)? ('e' '-'? d+)?
